@@ -340,6 +340,14 @@ def legalB (c : Cfg) (s : St) : Op → Bool
   | .evL2 n _ => decide (s.mem.floorState ≠ 0) &&
       (match s.db.height with | none => false | some h => decide (n.toNat ≤ h))
   | .crash _ | .fail => match s.job with | .idle => true | .run _ _ _ first => c.fixed || first
+  | .migrate mf u =>
+    (match s.job with | .idle => true | _ => false) && (!u || c.migSkipsMissing) &&
+    (match s.db.height, s.db.l1 with
+     | some h, some l1 =>
+       match migKeep c h l1 mf with
+       | some keep => (decide (0 < keep.toNat) || c.migZeroNoop) && decide (max (lo s.db) s.mem.keepMax ≤ keep.toNat)
+       | none => true
+     | _, _ => true)
   | _ => true
 
 theorem legal_of_legalB {c : Cfg} {s : St} {op : Op} (h : legalB c s op = true) : Legal c s op := by
@@ -360,6 +368,18 @@ theorem legal_of_legalB {c : Cfg} {s : St} {op : Op} (h : legalB c s op = true) 
   · cases e : s.job with
     | idle => trivial
     | run a b d f => rw [e] at h; simpa [interruptible] using h
+  · rename_i mf u
+    simp only [Bool.and_eq_true] at h
+    obtain ⟨⟨hj, hu⟩, hrest⟩ := h
+    refine ⟨?_, ?_, ?_⟩
+    · cases e : s.job with
+      | idle => rfl
+      | run a b d f => rw [e] at hj; cases hj
+    · intro hu'; subst hu'; simpa using hu
+    · intro hh l1 keep e1 e2 e3
+      rw [e1, e2] at hrest
+      simp only [e3, Bool.and_eq_true, Bool.or_eq_true, decide_eq_true_eq] at hrest
+      exact hrest
 
 /-- Every step of the history is legal. -/
 def runLegalB (c : Cfg) : St → List Op → Bool
